@@ -180,28 +180,41 @@ theorem badCond_iff (fs : Fs) (inputs : List File) (t : File) :
   simp
 
 theorem mem_badFiles (fs : Fs) (inputs reads : List File) (t : File) :
-    t ∈ badFiles fs inputs reads ↔ ∃ f i, f ∈ reads ∧ i ∈ fs.incs f ∧ resolve fs.libs i = some t ∧
-      (fs.files[t]?.map (·.ok)).getD false = false ∧ t ∉ inputs := by
+    t ∈ badFiles fs inputs reads ↔
+      (∃ f i, f ∈ reads ∧ i ∈ fs.incs f ∧ resolve fs.libs i = some t ∧
+        (fs.files[t]?.map (·.ok)).getD false = false ∧ t ∉ inputs) ∨
+      (t ∈ reads ∧ t ∉ inputs ∧ ∃ i, i ∈ fs.incs t ∧ resolve fs.libs i = none) := by
   unfold badFiles
-  simp only [List.mem_eraseDups, List.mem_flatMap, List.mem_filterMap]
+  simp only [List.mem_eraseDups, List.mem_append, List.mem_flatMap, List.mem_filterMap, List.mem_filter]
   constructor
-  · rintro ⟨f, hf, i, hi, h⟩
-    cases hr : resolve fs.libs i with
-    | none => rw [hr] at h; cases h
-    | some u =>
-      rw [hr] at h
-      simp only at h
-      split at h
-      · rename_i hc
-        cases h
-        have hc' := (badCond_iff fs inputs t).mp hc
-        exact ⟨f, i, hf, hi, hr, hc'.1, hc'.2⟩
-      · cases h
-  · rintro ⟨f, i, hf, hi, hr, hok, hin⟩
-    refine ⟨f, hf, i, hi, ?_⟩
-    rw [hr]
-    simp only
-    rw [if_pos ((badCond_iff fs inputs t).mpr ⟨hok, hin⟩)]
+  · rintro (⟨f, hf, i, hi, h⟩ | ⟨ht, hc⟩)
+    · left
+      cases hr : resolve fs.libs i with
+      | none => rw [hr] at h; cases h
+      | some u =>
+        rw [hr] at h
+        simp only at h
+        split at h
+        · rename_i hc
+          cases h
+          have hc' := (badCond_iff fs inputs t).mp hc
+          exact ⟨f, i, hf, hi, hr, hc'.1, hc'.2⟩
+        · cases h
+    · right
+      simp only [Bool.and_eq_true, Bool.not_eq_true', List.contains_eq_mem, decide_eq_false_iff_not, List.any_eq_true,
+        Option.isNone_iff_eq_none] at hc
+      exact ⟨ht, hc.1, hc.2⟩
+  · rintro (⟨f, i, hf, hi, hr, hok, hin⟩ | ⟨ht, hin, i, hi, hr⟩)
+    · left
+      refine ⟨f, hf, i, hi, ?_⟩
+      rw [hr]
+      simp only
+      rw [if_pos ((badCond_iff fs inputs t).mpr ⟨hok, hin⟩)]
+    · right
+      refine ⟨ht, ?_⟩
+      simp only [Bool.and_eq_true, Bool.not_eq_true', List.contains_eq_mem, decide_eq_false_iff_not, List.any_eq_true,
+        Option.isNone_iff_eq_none]
+      exact ⟨hin, i, hi, hr⟩
 
 theorem mem_upEdges (fs : Fs) (inputs reads : List File) (v f : File) :
     (v, f) ∈ upEdges fs inputs reads ↔ f ∈ reads ∧ v ∉ inputs ∧ ∃ i, i ∈ fs.incs f ∧ resolve fs.libs i = some v := by
@@ -228,8 +241,9 @@ theorem mem_upEdges (fs : Fs) (inputs reads : List File) (v f : File) :
     rw [if_neg (by intro hc; exact hv (by simpa using hc))]
 
 /-- **which include statements are reported for a file that cannot be used**: exactly the include statements `(f, idx)` of files
-    that were read whose target `v` is not a named file and is, or leads to, a file `t` that cannot be opened or parsed — `t` is
-    reached from `v` through include statements of files that are not named (`upEdges`: from an included file to a file that
+    that were read whose target `v` is not a named file and is, or leads to, a file `t` that cannot be opened or parsed or that
+    includes a file which cannot be found (`mem_badFiles`) — `t` is reached from `v` through include statements of files that are
+    not named (`upEdges`: from an included file to a file that
     includes it).  So a broken file is visible from every named file below which it lies, however deep (audit C05 round 2: at
     depth two nothing was displayed), and nothing else is reported. -/
 theorem C19_bad_sites_spec (fs : Fs) (inputs reads : List File) (f : File) (idx : Nat) :
